@@ -12,7 +12,15 @@ kinds:  'gen', 'sink'   the generator law and the sink's books (models in coq/El
                         projection of the log onto every stage is replayed by that element's own part (port_agree,
                         wire_agree, tb_agree, mq_agree: counters, store lengths, stamps after every action).  The log ->
                         action mappings are the element parts' own (part_wire._actions, part_port._actions,
-                        part_bucket._obs_term, part_mq._actions); this file only splits the global log per stage.
+                        part_bucket._obs_term, part_mq._actions, part_wfq._actions, part_drr.actions); this file only splits the
+                        global log per stage.  Elements: Wire, Port (incl. rate 0), REDPort (its draws go onto the adapter's
+                        oracle tape: `OLoad u` just before the action during which the put is made), TokenBucket,
+                        TwoRateTokenBucket, SP, RR, WRR, WFQ, VirtualClock, DRR.
+        'fanin'         two real upstream elements (flow 0 into the first, flows 1-2 into the second) feeding ONE real
+                        scheduler, replayed in `fanin sel A B C`; the hand-overs of both branches are compared
+        'fanout'        a real element -> real FlowDemux / FIBDemux (two outputs, no default) -> two real elements, replayed in
+                        `fanout route t0 A B C` with route = the decision function of coq/Route/Demux.v; flows without a
+                        route are discarded by the demux (monitor: exactly the output the rule names)
                         Theorems: Props/C08_Pipe.v."""
 from fractions import Fraction
 
@@ -53,6 +61,7 @@ PIPE_ELEMS = ["wire", "port", "port0", "red", "tb", "trtb", "sp", "rr", "wrr", "
 PIPE_SCHEDS = ("sp", "rr", "wrr", "wfq", "vc", "drr")
 PIPE_FLOWS = (0, 1, 2)
 PIPE_SIZES = (64, 128, 256, 512)
+PIPE_SIZES_BIG = (512, 1536, 2048, 3072)      # above DRR's quantum of 1500 * weight / min weight: heads get parked
 PIPE_DELAYS = [Fraction(0), Fraction(1, 4), Fraction(1, 2), Fraction(1), Fraction(2)]
 PIPE_UNIFORMS = [Fraction(0), Fraction(1, 8), Fraction(1, 4), Fraction(3, 8), Fraction(1, 2), Fraction(3, 4), Fraction(1)]
 
@@ -200,8 +209,11 @@ class GenSinkPart:
                               "the only wire), port (rates 512/1024/4096 or 0, no limit / byte limit / packet limit), token bucket (bucket 0..1024 B, "
                               "peak unset / 0 / set), SP / RR / WRR over flows 0-2, bursty workloads of 1-8 packets from 1-3 drivers on a dyadic "
                               "lattice, drivers created before or after the elements, elements constructed first-to-last or last-to-first; "
-                              "non-trivial = at least 3 packets (gen: >= 3 emissions; sink: >= 3 deliveries over >= 2 keys; pipeline: >= 4 packets "
-                              "injected; pipe: >= 3 packets injected and at least one delivered by the last stage)"}
+                              "stages also REDPort (scripted draws on the k/8 lattice), TwoRateTokenBucket, WFQ (equal power-of-two weights), "
+                              "VirtualClock, DRR (half of the time with packets above the quantum); fanin: two upstream elements into one "
+                              "scheduler; fanout: element -> FlowDemux/FIBDemux (two outputs, no default, some flows without a route) -> two "
+                              "elements; non-trivial = at least 3 packets (gen: >= 3 emissions; sink: >= 3 deliveries over >= 2 keys; pipeline: "
+                              ">= 4 packets injected; pipe/fanin/fanout: >= 3 packets injected and at least one delivered at a sink)"}
     trusted_base = {"C08": ["arrival_dist/size_dist/delay_dist are scripted sequences",
                             "vlib/translate.py (Python ast, fail closed; tables in props/sink_tie.py) regenerates "
                             "coq/Gen/Extracted_packetsink.v from PacketSink.put of the tree under test before every build; "
@@ -505,6 +517,9 @@ class GenSinkPart:
         w = ec.gen_workload(rng, flows=PIPE_FLOWS, n_max=8, sizes=PIPE_SIZES, burst_p=0.45)
         npk = len(w["packets"])
         els = [rng.choice(PIPE_ELEMS) for _ in range(n)]
+        if "drr" in els and rng.random() < 0.5:
+            w = ec.gen_workload(rng, flows=PIPE_FLOWS, n_max=8, sizes=PIPE_SIZES_BIG, burst_p=0.45)
+            npk = len(w["packets"])
         seen_red = False
         for i, el in enumerate(els):          # random.uniform of red_port.py is module-level: one scripted REDPort per pipeline
             if el == "red":
@@ -531,6 +546,9 @@ class GenSinkPart:
         if ups == ["red", "red"]:
             ups[1] = "port"
         down = rng.choice(PIPE_SCHEDS)
+        if down == "drr" and rng.random() < 0.5:
+            w = ec.gen_workload(rng, flows=PIPE_FLOWS, n_max=8, sizes=PIPE_SIZES_BIG, burst_p=0.45)
+            npk = len(w["packets"])
         eids = ["p1", "sw3", None]
         rng.shuffle(eids)
         one_wire = ups.count("wire") == 1
@@ -546,6 +564,9 @@ class GenSinkPart:
               [rng.choice(["port", "port", "port0", "wire", "tb", "red", "wrr", "wfq"]) for _ in range(2)]
         if els[1:] == ["red", "red"]:
             els[2] = "port"
+        if els[0] == "drr" and rng.random() < 0.5:
+            w = ec.gen_workload(rng, flows=PIPE_FLOWS, n_max=8, sizes=PIPE_SIZES_BIG, burst_p=0.45)
+            npk = len(w["packets"])
         eids = ["p1", "sw3", None]
         rng.shuffle(eids)
         one_wire = els.count("wire") == 1
